@@ -34,6 +34,9 @@ change of timing that stays inside what the properties allow, extra defensive ch
 Do not touch `#[cfg(feature = "verif")]` code, `src/verif.rs` or `src/react/verif_access.rs` beyond what is needed to keep
 them compiling (`cargo check --offline --features verif` must still build), and do not edit the existing tests.
 
+Never use `git stash` (the stash is shared between all worktrees of this repository, other people work in sibling
+worktrees); to compare with the unchanged source save `git diff -- src` to a file, `git checkout -- src`, and `git apply` it again.
+
 ## Deliverables (all in `{O}/`)
 
 * `patch.diff` - output of `git -C {W} diff -- src`;
